@@ -105,6 +105,9 @@ func TestC07Retained(t *testing.T) {
 					}
 					nodes = append(nodes, r)
 				}
+				snap := newDNode("S", 99, 0)
+				snap.st.Distributor().MergeRemoteState(a.st.Distributor().LocalState(false), true)
+				nodes = append(nodes, snap)
 				for ni, n := range nodes {
 					fs := filters
 					if ni >= 2 {
@@ -132,6 +135,8 @@ func TestC07Retained(t *testing.T) {
 							who := "origin"
 							if n == b {
 								who = "replica"
+							} else if n == snap {
+								who = "snapshot-replica"
 							} else if n != a {
 								who = "reordered-replica"
 							}
